@@ -45,6 +45,43 @@ Proof. unfold upd. rewrite N.eqb_refl. reflexivity. Qed.
 Lemma upd_other f k v x : x <> k -> upd f k v x = f x.
 Proof. unfold upd. intros H. apply N.eqb_neq in H. rewrite H. reflexivity. Qed.
 
+Lemma pev_eq_dec (a b : pev) : {a = b} + {a <> b}.
+Proof. decide equality; apply N.eq_dec. Defined.
+
+Definition ev_count (e : pev) (tr : list pev) : nat := count_occ pev_eq_dec tr e.
+Definition pev_mod (e : pev) : N := match e with PEnter m | PLeave m | PReport m => m end.
+
+(* how often module m was entered, left, reported *)
+Definition counts (m : N) (tr : list pev) : nat * nat * nat :=
+  (ev_count (PEnter m) tr, ev_count (PLeave m) tr, ev_count (PReport m) tr).
+
+Definition exp_counts (x : pstate) (ok : bool) : nat * nat * nat :=
+  match x with
+  | UNPROCESSED => (0, 0, 0)
+  | PROCESSING => if ok then (1, 0, 0) else (0, 0, 1)
+  | PROCESSED => (1, 1, 0)
+  end.
+
+Lemma ev_count_cons e e' tr : ev_count e (e' :: tr) = (if pev_eq_dec e' e then 1 else 0) + ev_count e tr.
+Proof. unfold ev_count. cbn [count_occ]. destruct (pev_eq_dec e' e); reflexivity. Qed.
+
+Lemma counts_other x e tr : pev_mod e <> x -> counts x (e :: tr) = counts x tr.
+Proof.
+  intros H. unfold counts. rewrite !ev_count_cons.
+  destruct (pev_eq_dec e (PEnter x)) as [->|_]; [cbn in H; congruence|].
+  destruct (pev_eq_dec e (PLeave x)) as [->|_]; [cbn in H; congruence|].
+  destruct (pev_eq_dec e (PReport x)) as [->|_]; [cbn in H; congruence|]. reflexivity.
+Qed.
+
+Lemma counts_same m e tr a b c :
+  pev_mod e = m -> counts m tr = (a, b, c) ->
+  counts m (e :: tr) = match e with PEnter _ => (S a, b, c) | PLeave _ => (a, S b, c) | PReport _ => (a, b, S c) end.
+Proof.
+  intros Hm Hc. unfold counts in *. rewrite !ev_count_cons. injection Hc as <- <- <-.
+  destruct e as [k|k|k]; cbn in Hm; subst k;
+    repeat match goal with |- context [pev_eq_dec ?u ?v] => destruct (pev_eq_dec u v); try congruence end; reflexivity.
+Qed.
+
 Section WithProject.
   Variable p : project.
 
@@ -58,8 +95,20 @@ Section WithProject.
                           (parse_ok i = false /\ In m (reports s)) \/ In m (stack s);
     inv_rep_nodup : NoDup (reports s);
     inv_rep : forall m, In m (reports s) ->
-                        exists i, lookup p m = Some i /\ parse_ok i = false /\ st s m = PROCESSING
+                        exists i, lookup p m = Some i /\ parse_ok i = false /\ st s m = PROCESSING;
+    inv_trace : forall m i, lookup p m = Some i -> counts m (trace s) = exp_counts (st s m) (parse_ok i)
   }.
+
+  Lemma trace_step (st0 : N -> pstate) tr m e new :
+    (forall x i, lookup p x = Some i -> counts x tr = exp_counts (st0 x) (parse_ok i)) ->
+    pev_mod e = m ->
+    (forall i, lookup p m = Some i -> counts m (e :: tr) = exp_counts new (parse_ok i)) ->
+    forall x i, lookup p x = Some i -> counts x (e :: tr) = exp_counts (upd st0 m new x) (parse_ok i).
+  Proof.
+    intros H0 He Hm x i Hl. destruct (N.eq_dec x m) as [->|Hxm].
+    - rewrite upd_same. apply Hm. exact Hl.
+    - rewrite upd_other by exact Hxm. rewrite counts_other by congruence. apply H0. exact Hl.
+  Qed.
 
   Definition Frame (s s' : state) : Prop :=
     stack s' = stack s /\
@@ -190,7 +239,7 @@ Section WithProject.
       set (s2 := {| st := upd (st s) m PROCESSING; unproc := remove1 m (unproc s); stack := m :: stack s;
                     reports := reports s; trace := PEnter m :: trace s |}).
       assert (HI2 : Inv s2).
-      { constructor; cbn [st unproc stack reports s2].
+      { constructor; cbn [st unproc stack reports trace s2].
         - apply remove1_NoDup, (inv_nodup s HI).
         - exact Hun1.
         - intros x i Hl Hx. destruct (N.eq_dec x m) as [->|Hxm].
@@ -203,7 +252,11 @@ Section WithProject.
         - apply (inv_rep_nodup s HI).
         - intros x Hx. destruct (inv_rep s HI x Hx) as (i & Hl & Hp & Hs). exists i.
           split; [exact Hl|]. split; [exact Hp|].
-          rewrite upd_other; [exact Hs|]. intros ->. congruence. }
+          rewrite upd_other; [exact Hs|]. intros ->. congruence.
+        - apply trace_step; [apply (inv_trace s HI)|reflexivity|].
+          intros i Hl. rewrite Elm in Hl. injection Hl as <-. rewrite Epo.
+          pose proof (inv_trace s HI m info Elm) as Hc. rewrite Hst in Hc. cbn [exp_counts] in Hc.
+          rewrite (counts_same m (PEnter m) (trace s) 0 0 0 eq_refl Hc). reflexivity. }
       assert (Hlen2 : length (unproc s2) < f) by (cbn [unproc s2]; lia).
       destruct (walk_ok f IHf (imports info) s2 HI2 Hlen2) as (s3 & -> & HI3 & (Hstk & Hfr & Hrp) & Hl3).
       cbn [stack s2] in Hstk. rewrite Hstk. rewrite N.eqb_refl.
@@ -211,7 +264,7 @@ Section WithProject.
       { rewrite Hfr; cbn [st s2]; rewrite upd_same; [reflexivity|discriminate]. }
       eexists. split; [reflexivity|].
       split; [|split; [|split]].
-      + constructor; cbn [st unproc stack reports].
+      + constructor; cbn [st unproc stack reports trace].
         * apply (inv_nodup s3 HI3).
         * intros x. rewrite (inv_unproc s3 HI3). destruct (N.eq_dec x m) as [->|Hxm].
           -- rewrite upd_same, Hm3. split; intros [_ H]; discriminate.
@@ -228,6 +281,10 @@ Section WithProject.
         * intros x Hx. destruct (inv_rep s3 HI3 x Hx) as (i & Hl & Hp & Hs). exists i.
           split; [exact Hl|]. split; [exact Hp|].
           rewrite upd_other; [exact Hs|]. intros ->. rewrite Elm in Hl. injection Hl as <-. congruence.
+        * apply trace_step; [apply (inv_trace s3 HI3)|reflexivity|].
+          intros i Hl. rewrite Elm in Hl. injection Hl as <-.
+          pose proof (inv_trace s3 HI3 m info Elm) as Hc. rewrite Hm3, Epo in Hc. cbn [exp_counts] in Hc.
+          rewrite (counts_same m (PLeave m) (trace s3) 1 0 0 eq_refl Hc). reflexivity.
       + repeat split; cbn [st stack reports].
         * intros x Hx. assert (Hxm : x <> m) by (intros ->; contradiction).
           rewrite upd_other by exact Hxm. rewrite Hfr; cbn [st s2]; rewrite upd_other by exact Hxm; [reflexivity|exact Hx].
@@ -237,7 +294,7 @@ Section WithProject.
     - (* parse failed: reported, state stays PROCESSING *)
       eexists. split; [reflexivity|].
       split; [|split; [|split]].
-      + constructor; cbn [st unproc stack reports].
+      + constructor; cbn [st unproc stack reports trace].
         * apply remove1_NoDup, (inv_nodup s HI).
         * exact Hun1.
         * intros x i Hl Hx. destruct (N.eq_dec x m) as [->|Hxm].
@@ -253,6 +310,10 @@ Section WithProject.
           -- destruct (inv_rep s HI x Hx) as (i & Hl & Hp & Hs). exists i.
              split; [exact Hl|]. split; [exact Hp|].
              rewrite upd_other; [exact Hs|]. intros ->. congruence.
+        * apply trace_step; [apply (inv_trace s HI)|reflexivity|].
+          intros i Hl. rewrite Elm in Hl. injection Hl as <-. rewrite Epo.
+          pose proof (inv_trace s HI m info Elm) as Hc. rewrite Hst in Hc. cbn [exp_counts] in Hc.
+          rewrite (counts_same m (PReport m) (trace s) 0 0 0 eq_refl Hc). reflexivity.
       + repeat split; cbn [st stack reports].
         * intros x Hx. rewrite upd_other; [reflexivity|]. intros ->. contradiction.
         * intros x Hx. right. exact Hx.
@@ -280,13 +341,14 @@ Section WithProject.
   Lemma init_Inv order :
     NoDup order -> (forall m, In m order <-> known m) -> Inv (init_state order).
   Proof.
-    intros Hnd Hor. constructor; cbn [init_state st unproc stack reports].
+    intros Hnd Hor. constructor; cbn [init_state st unproc stack reports trace].
     - exact Hnd.
     - intros m. rewrite Hor. tauto.
     - discriminate.
     - discriminate.
     - constructor.
     - intros m [].
+    - intros m i _. reflexivity.
   Qed.
 
   Definition final_of (i : modinfo) : pstate := if parse_ok i then PROCESSED else PROCESSING.
@@ -296,7 +358,8 @@ Section WithProject.
     exists s', run_project p order = Ok s' /\ unproc s' = [] /\ stack s' = [] /\
                NoDup (reports s') /\
                (forall m i, lookup p m = Some i ->
-                            st s' m = final_of i /\ (In m (reports s') <-> parse_ok i = false)).
+                            st s' m = final_of i /\ (In m (reports s') <-> parse_ok i = false) /\
+                            counts m (trace s') = if parse_ok i then (1, 1, 0) else (0, 0, 1)).
   Proof.
     intros Hnd Hor. unfold run_project.
     destruct (process_ok (S (length order)) (S (length order)) (init_state order)
@@ -309,10 +372,12 @@ Section WithProject.
     { intros Hx. assert (Hin : In m (unproc s')).
       { apply (inv_unproc s' HI). split; [unfold known; congruence|exact Hx]. }
       rewrite Hu in Hin. exact Hin. }
+    pose proof (inv_trace s' HI m i Hl) as Htr.
     unfold final_of. destruct (st s' m) eqn:Est; [congruence| |].
     - destruct (inv_ing s' HI m i Hl Est) as [[Hp Hr]|Hr]; [|rewrite Hs in Hr; destruct Hr].
-      rewrite Hp. split; [reflexivity|]. tauto.
-    - pose proof (inv_done s' HI m i Hl Est) as Hp. rewrite Hp. split; [reflexivity|].
+      rewrite Hp in *. split; [reflexivity|]. split; [tauto|exact Htr].
+    - pose proof (inv_done s' HI m i Hl Est) as Hp. rewrite Hp in *. split; [reflexivity|].
+      split; [|exact Htr].
       split; [|discriminate]. intros Hr.
       destruct (inv_rep s' HI m Hr) as (i' & Hl' & Hp' & Hs'). congruence.
   Qed.
